@@ -731,3 +731,38 @@ Theorem C02_patch_table_agrees_with_model :
     end.
 Proof. exact patch_table_agrees. Qed.
 Print Assumptions C02_patch_table_agrees_with_model.
+
+(* ---- round 5: --recreate-pods (action.recreate after the update of an upgrade / rollback) over the object store.
+   [k2_recreate o updated]: for every updated resource whose stored object has a pod selector
+   (kube.SelectorsForObject: a Deployment by spec.selector, a Service by a NON-EMPTY spec.selector) the pods of ITS
+   namespace carrying the selector's labels are deleted.  For every store with distinct keys: whatever differs
+   afterwards is a pod, of the namespace of an updated resource, selected by that resource's own selector, and it is
+   gone; everything else is as it was. *)
+Theorem C02_recreate_touches_only_selected_pods :
+  forall (o : store2) (rs : list res2) (key : string),
+    NoDup (akeys o) ->
+    aget key (fst (k2_recreate o rs)) <> aget key o ->
+    aget key (fst (k2_recreate o rs)) = None /\
+    exists r obj sel pod,
+      In r rs /\ aget (r2_key r) o = Some obj /\ selector_of r obj = Some sel /\
+      aget key o = Some pod /\ pod_key_in (r2_ns r) key = true /\ sel_match sel (labels_of pod) = true.
+Proof. exact recreate_touches_only_selected_pods. Qed.
+Print Assumptions C02_recreate_touches_only_selected_pods.
+
+(* a Service without pod selector (ExternalName, manually managed Endpoints) selects nothing (seeded C02-10) *)
+Theorem C02_recreate_service_without_selector_selects_nothing :
+  forall (r : res2) (obj : tree),
+    r2_kind r = "Service"%string -> r2_group r = ""%string ->
+    (tget ["spec"; "selector"]%string obj = None \/ tget ["spec"; "selector"]%string obj = Some (TM [])) ->
+    selector_of r obj = None.
+Proof. exact service_without_selector_selects_nothing. Qed.
+Print Assumptions C02_recreate_service_without_selector_selects_nothing.
+
+Example C02_recreate_example :
+  NoDup (akeys rc_store) /\
+  map fst (fst (k2_recreate rc_store [r_dep "v1" dep_sel; r_svc "web" svc_sel; r_svc "ext" svc_nosel])) =
+    ["default/apps/Deployment/web"; "default//Service/web"; "default//Service/ext";
+     "default//Pod/stranger"; "default//Pod/bare"; "other//Pod/web-elsewhere"]%string /\
+  selector_of (r_svc "ext" svc_nosel) svc_nosel = None.
+Proof. exact recreate_example. Qed.
+Print Assumptions C02_recreate_example.
